@@ -33,8 +33,49 @@ type c27Key struct {
 func runC27(c *an.Ctx) {
 	p := c.P
 	const ip = "ipns"
-	cmpFn := p.Func(ip, "", "compare")
-	if !c.Need(cmpFn != nil && len(cmpFn.Params) == 2, "ipns.compare(a, b)") {
+	c25RecordFields(p) // sets the name of Record's protobuf field used in access paths
+	// the record comparator, by role: reached from the exported Validator.Select through package-local calls, takes
+	// exactly two *Record and returns an int first; the top-level one is the candidate called from a non-candidate
+	sel := p.Func(ip, "Validator", "Select")
+	if !c.Need(sel != nil, "ipns.Validator.Select") {
+		return
+	}
+	isCmp := func(f *ssa.Function) bool {
+		if f == nil || f.Blocks == nil || len(f.Params) != 2 || f.Signature.Results().Len() == 0 {
+			return false
+		}
+		if !an.TypeIs(f.Params[0].Type(), ip, "Record") || !an.TypeIs(f.Params[1].Type(), ip, "Record") {
+			return false
+		}
+		bt, ok := f.Signature.Results().At(0).Type().Underlying().(*types.Basic)
+		return ok && bt.Kind() == types.Int
+	}
+	var cmpFn *ssa.Function
+	seen := map[*ssa.Function]bool{sel: true}
+	queue := []*ssa.Function{sel}
+	for depth := 0; depth < 5 && len(queue) > 0 && cmpFn == nil; depth++ {
+		var next []*ssa.Function
+		for _, f := range queue {
+			for _, g := range an.WithClosures(f) {
+				for _, call := range an.AllCalls(g) {
+					h := call.Common().StaticCallee()
+					if h == nil || h.Pkg == nil || sel.Pkg == nil || h.Pkg != sel.Pkg || seen[h] || h.Blocks == nil {
+						continue
+					}
+					seen[h] = true
+					if isCmp(h) && !isCmp(f) {
+						if cmpFn == nil {
+							cmpFn = h
+						}
+						continue
+					}
+					next = append(next, h)
+				}
+			}
+		}
+		queue = next
+	}
+	if !c.Need(cmpFn != nil, "record comparator (a, b *Record) (int, ...) reached from Validator.Select") {
 		return
 	}
 	c27Memo = map[*ssa.Function][]string{}
@@ -205,7 +246,7 @@ func c27Compare(c *an.Ctx, fn *ssa.Function, top bool) []string {
 	sigOf := func(x *ssa.Parameter) []ssa.Value {
 		var out []ssa.Value
 		an.Instrs(fn, func(in ssa.Instruction) {
-			if v, ok := in.(ssa.Value); ok && c25IsPbRead(v, "SignatureV2", "p:"+x.Name()+".pb") {
+			if v, ok := in.(ssa.Value); ok && c25IsPbRead(v, "SignatureV2", "p:"+x.Name()+"."+c25PBName) {
 				if _, isCall := v.(*ssa.Call); isCall {
 					out = append(out, v)
 				} else if u, isLoad := v.(*ssa.UnOp); isLoad && u.Op == token.MUL {
@@ -279,7 +320,18 @@ func c27Compare(c *an.Ctx, fn *ssa.Function, top bool) []string {
 		})
 	}
 	differ, same := diffEdges(true), diffEdges(false)
-	guarded := func(r ssa.Instruction, e an.EdgeSet) bool { return len(e) > 0 && an.GuardedBy(fn, nil, r, e) }
+	// curPred != nil: the facts asked for are those known on the CFG edge curPred -> block of r (one alternative of a
+	// result phi: `res := -1; if as > bs { res = 1 }; return res, nil`)
+	var curPred *ssa.BasicBlock
+	guarded := func(r ssa.Instruction, e an.EdgeSet) bool {
+		if len(e) == 0 {
+			return false
+		}
+		if curPred != nil {
+			return c27EdgeKnown(fn, curPred, r.Block(), e)
+		}
+		return an.GuardedBy(fn, nil, r, e)
+	}
 	v2Greater := func(r ssa.Instruction, sigX, sigY []ssa.Value) bool {
 		xT, yF := guarded(r, has(sigX, true)), guarded(r, has(sigY, false))
 		if xT && yF || guarded(r, differ) && (xT || yF) {
@@ -305,7 +357,11 @@ func c27Compare(c *an.Ctx, fn *ssa.Function, top bool) []string {
 		delegated bool // the value is the result of a stage helper (sign checked in the helper)
 	}
 	var decs []decision
-	var zeros []*ssa.Return
+	type zeroRet struct {
+		r    *ssa.Return
+		pred *ssa.BasicBlock
+	}
+	var zeros []zeroRet
 	type tailStage struct {
 		r   *ssa.Return
 		key string
@@ -355,49 +411,74 @@ func c27Compare(c *an.Ctx, fn *ssa.Function, top bool) []string {
 		if len(r.Results) != 2 || !an.IsNilConst(r.Results[1]) {
 			continue
 		}
-		k, ok := an.ConstOf(r.Results[0])
-		if !ok || k.Kind() != constant.Int {
+		type altT struct {
+			k    int64
+			pred *ssa.BasicBlock
+		}
+		var alts []altT
+		if k, ok := an.ConstOf(r.Results[0]); ok && k.Kind() == constant.Int {
+			kv, _ := constant.Int64Val(k)
+			alts = []altT{{kv, nil}}
+		} else if ph, isPhi := r.Results[0].(*ssa.Phi); isPhi && ph.Block() == r.Block() {
+			// a result variable assigned constants on different branches: one alternative per incoming edge
+			for i, e := range ph.Edges {
+				k, ok := an.ConstOf(e)
+				if !ok || k.Kind() != constant.Int {
+					alts = nil
+					break
+				}
+				kv, _ := constant.Int64Val(k)
+				alts = append(alts, altT{kv, ph.Block().Preds[i]})
+			}
+		}
+		if len(alts) == 0 {
 			c.Problem("undecided: %s returns a non-constant ordering result with a nil error (%s); only constant decision lists are analysed", name, c.P.Pos(r.Pos()))
 			continue
 		}
-		kv, _ := constant.Int64Val(k)
-		if kv == 0 {
-			zeros = append(zeros, r)
-			continue
-		}
-		d := decision{r: r, k: kv}
-		// what is known about a key on the way to r: the intersection of all relations established by the tests
-		// passed (`if as != bs { if as > bs {..}; return -1 }` knows != and <= at the second return, i.e. <)
-		known := func(k c27Key) int {
-			m := 7
-			for _, t := range []int{c25LT, c25LE, c25EQ, c25NE, c25GE, c25GT} {
-				if guarded(r, k.rel(t)) {
-					m &= t
+		for _, alt := range alts {
+			func() {
+				curPred = alt.pred
+				defer func() { curPred = nil }()
+				kv := alt.k
+				if kv == 0 {
+					zeros = append(zeros, zeroRet{r, alt.pred})
+					return
 				}
-			}
-			return m
+				d := decision{r: r, k: kv}
+				// what is known about a key on the way to r: the intersection of all relations established by the tests
+				// passed (`if as != bs { if as > bs {..}; return -1 }` knows != and <= at the second return, i.e. <)
+				known := func(k c27Key) int {
+					m := 7
+					for _, t := range []int{c25LT, c25LE, c25EQ, c25NE, c25GE, c25GT} {
+						if guarded(r, k.rel(t)) {
+							m &= t
+						}
+					}
+					return m
+				}
+				// latest key that is known to differ on the way to r
+				switch {
+				case known(eol) == c25GT:
+					d.form, d.aBig = "validity", true
+				case known(eol) == c25LT:
+					d.form, d.aBig = "validity", false
+				case known(seq) == c25GT:
+					d.form, d.aBig = "sequence", true
+				case known(seq) == c25LT:
+					d.form, d.aBig = "sequence", false
+				case v2Greater(r, sigA, sigB) || v2Stage(r, true):
+					d.form, d.aBig = "v2", true
+				case v2Greater(r, sigB, sigA) || v2Stage(r, false):
+					d.form, d.aBig = "v2", false
+				default:
+					nUnrec++
+					c.Bad("O3", "R-CMP", name, fmt.Sprintf("return %d: unrecognised decision", kv), r.Pos(),
+						fmt.Sprintf("compare returns %d on a path where none of the keys (has SignatureV2, Sequence(), Validity() of a vs b) is known to differ strictly: the order is no longer the lexicographic order (hasV2, sequence, expiry)", kv))
+					return
+				}
+				decs = append(decs, d)
+			}()
 		}
-		// latest key that is known to differ on the way to r
-		switch {
-		case known(eol) == c25GT:
-			d.form, d.aBig = "validity", true
-		case known(eol) == c25LT:
-			d.form, d.aBig = "validity", false
-		case known(seq) == c25GT:
-			d.form, d.aBig = "sequence", true
-		case known(seq) == c25LT:
-			d.form, d.aBig = "sequence", false
-		case v2Greater(r, sigA, sigB) || v2Stage(r, true):
-			d.form, d.aBig = "v2", true
-		case v2Greater(r, sigB, sigA) || v2Stage(r, false):
-			d.form, d.aBig = "v2", false
-		default:
-			nUnrec++
-			c.Bad("O3", "R-CMP", name, fmt.Sprintf("return %d: unrecognised decision", kv), r.Pos(),
-				fmt.Sprintf("compare returns %d on a path where none of the keys (has SignatureV2, Sequence(), Validity() of a vs b) is known to differ strictly: the order is no longer the lexicographic order (hasV2, sequence, expiry)", kv))
-			continue
-		}
-		decs = append(decs, d)
 	}
 	if top {
 		c.Min("O1 decision returns of compare", len(decs)+nUnrec, 1)
@@ -508,8 +589,10 @@ func c27Compare(c *an.Ctx, fn *ssa.Function, top bool) []string {
 		return good
 	}
 	const zeroBad = "compare can return 0 (tie) without having found hasV2, sequence and validity all equal: records that differ in a key are treated as ties and ordered by bytes"
-	for _, r := range zeros {
-		c.Check(zeroOK(r, ""), "O1", "R-DOM", name, "return 0 only when all keys equal", r.Pos(), "0 returned only where no key is known to differ", zeroBad)
+	for _, z := range zeros {
+		curPred = z.pred
+		c.Check(zeroOK(z.r, ""), "O1", "R-DOM", name, "return 0 only when all keys equal", z.r.Pos(), "0 returned only where no key is known to differ", zeroBad)
+		curPred = nil
 	}
 	for _, t := range tails {
 		c.Check(zeroOK(t.r, t.key), "O1", "R-DOM", name, "return 0 only when all keys equal", t.r.Pos(), "the last stage is returned only where every other key is known equal", zeroBad)
@@ -557,7 +640,7 @@ func c27Wrapper(c *an.Ctx, fn *ssa.Function, cmpCall *ssa.Call) *c27Wrap {
 	if tb == nil {
 		return nil
 	}
-	c.Check(len(eqE) > 0 && an.GuardedBy(fn, nil, tb, eqE), "O2", "R-DOM", name, "tie-break only when compare == 0", tb.Pos(), "bytes tie-break applied only where compare returned 0", "the byte comparison can override a non-zero compare result: the selected record is not maximal by (hasV2, sequence, expiry)")
+	c.Check(len(eqE) > 0 && an.GuardedBy(fn, nil, tb, eqE), "O2", "R-DOM", name, "tie-break only when comparator == 0", tb.Pos(), "bytes tie-break applied only where compare returned 0", "the byte comparison can override a non-zero compare result: the selected record is not maximal by (hasV2, sequence, expiry)")
 	// every successful return yields merge(compare result on != 0, tie-break)
 	good := true
 	nRet := 0
@@ -586,7 +669,7 @@ func c27Wrapper(c *an.Ctx, fn *ssa.Function, cmpCall *ssa.Call) *c27Wrap {
 		}
 		walk(r.Results[0], nil, nil)
 	}
-	c.Check(good && nRet > 0, "O2", "R-DOM", name, "tie-break whenever compare == 0", fn.Pos(), "the comparator returns compare's result only where it is non-zero, else the byte comparison", "a zero compare result can be returned without the byte tie-break (or something else is returned): equal records keep input order")
+	c.Check(good && nRet > 0, "O2", "R-DOM", name, "tie-break whenever comparator == 0", fn.Pos(), "the comparator returns compare's result only where it is non-zero, else the byte comparison", "a zero compare result can be returned without the byte tie-break (or something else is returned): equal records keep input order")
 	return w
 }
 
@@ -688,43 +771,64 @@ func c27Scan(c *an.Ctx, fn *ssa.Function, cmpCall *ssa.Call, wrap *c27Wrap) {
 	}
 	// the loop counter: second operand of compare is recs[j], j a unit-step header phi
 	counter := func(ph *ssa.Phi) (start int64, ok bool) {
-		var haveInit, haveStep bool
+		// one constant start; every other incoming value is ph+1 (several back edges with `continue`)
+		var nInit, nStep, nOther int
 		for _, e := range ph.Edges {
 			if k, isK := an.ConstOf(e); isK && k.Kind() == constant.Int {
 				start, _ = constant.Int64Val(k)
-				haveInit = true
+				nInit++
 			} else if bo, isB := e.(*ssa.BinOp); isB && bo.Op == token.ADD && bo.X == ph && c25IsInt(1)(bo.Y) {
-				haveStep = true
+				nStep++
+			} else {
+				nOther++
 			}
 		}
-		return start, haveInit && haveStep && len(ph.Edges) == 2
+		return start, nInit == 1 && nStep >= 1 && nOther == 0
 	}
 	a0, a1 := cmpCall.Call.Args[0], cmpCall.Call.Args[1]
 	if wrap != nil {
 		a0, a1 = cmpCall.Call.Args[wrap.ra], cmpCall.Call.Args[wrap.rb]
 	}
-	var jPhi *ssa.Phi
-	if idx, ok := elem(a1, rParam); ok {
-		if ph, isPhi := idx.(*ssa.Phi); isPhi {
-			if _, isC := counter(ph); isC {
-				jPhi = ph
+	// asCounter: idx is a unit-step loop counter: the header phi itself (for j := k; ...) or phi+1 of a range loop
+	// (whose phi starts at k-1 and is incremented before use)
+	asCounter := func(idx ssa.Value) (val ssa.Value, ph *ssa.Phi, start int64, ok bool) {
+		if p0, isPhi := idx.(*ssa.Phi); isPhi {
+			if st, isC := counter(p0); isC {
+				return p0, p0, st, true
 			}
+		}
+		if bo, isB := idx.(*ssa.BinOp); isB && bo.Op == token.ADD && c25IsInt(1)(bo.Y) {
+			if p0, isPhi := bo.X.(*ssa.Phi); isPhi {
+				if st, isC := counter(p0); isC {
+					for _, e := range p0.Edges {
+						if e == ssa.Value(bo) {
+							return bo, p0, st + 1, true
+						}
+					}
+				}
+			}
+		}
+		return nil, nil, 0, false
+	}
+	var jPhi *ssa.Phi
+	var jVal ssa.Value
+	var jInit int64
+	if idx, ok := elem(a1, rParam); ok {
+		if v, ph, st, isC := asCounter(idx); isC {
+			jVal, jPhi, jInit = v, ph, st
 		}
 	}
 	if jPhi == nil {
 		// swapped operands?
 		if idx, ok := elem(a0, rParam); ok {
-			if ph, isPhi := idx.(*ssa.Phi); isPhi {
-				if _, isC := counter(ph); isC {
-					c.Bad("O2", "R-FLOW", name, "compare(current best, recs[j])", cmpCall.Pos(), "compare is called with the loop candidate recs[j] as FIRST operand (candidate first): with 'replace when result < 0' the scan keeps the minimum instead of the maximum")
-					return
-				}
+			if _, _, _, isC := asCounter(idx); isC {
+				c.Bad("O2", "R-FLOW", name, "comparator(current best, recs[j])", cmpCall.Pos(), "compare is called with the loop candidate recs[j] as FIRST operand (candidate first): with 'replace when result < 0' the scan keeps the minimum instead of the maximum")
+				return
 			}
 		}
 		c.Problem("undecided: %s: the second operand of compare is not recs[j] with j a unit-step loop counter (%s)", name, p.Pos(cmpCall.Pos()))
 		return
 	}
-	jInit, _ := counter(jPhi)
 	header := jPhi.Block()
 
 	// ---- best-state: loop-carried phis of the header other than j. Each must be a projection of ONE current-best
@@ -753,7 +857,7 @@ func c27Scan(c *an.Ctx, fn *ssa.Function, cmpCall *ssa.Call, wrap *c27Wrap) {
 		}
 		return ""
 	}
-	isJ := func(v ssa.Value) bool { return v == ssa.Value(jPhi) }
+	isJ := func(v ssa.Value) bool { return v == jVal }
 	for _, in := range header.Instrs {
 		ph, ok := in.(*ssa.Phi)
 		if !ok || ph == jPhi {
@@ -848,10 +952,10 @@ func c27Scan(c *an.Ctx, fn *ssa.Function, cmpCall *ssa.Call, wrap *c27Wrap) {
 		return false
 	}
 	if !cur(a0, "rec") {
-		c.Bad("O2", "R-FLOW", name, "compare(current best, recs[j])", cmpCall.Pos(), "the first operand of compare is not the current best record (neither recs[best] with best the loop-carried index nor a loop-carried record updated together with it): candidates are compared against a stale or fixed record")
+		c.Bad("O2", "R-FLOW", name, "comparator(current best, recs[j])", cmpCall.Pos(), "the first operand of compare is not the current best record (neither recs[best] with best the loop-carried index nor a loop-carried record updated together with it): candidates are compared against a stale or fixed record")
 		return
 	}
-	c.OK("O2", "R-FLOW", name, "compare(current best, recs[j])", cmpCall.Pos(), "compare(current best, recs[j])")
+	c.OK("O2", "R-FLOW", name, "comparator(current best, recs[j])", cmpCall.Pos(), "compare(current best, recs[j])")
 	c.Check(jInit == 0 || jInit == 1, "O2", "R-CONST", name, "scan starts at best=0, j<=1", jPhi.Pos(), "best starts at element 0 and candidates at 0 or 1 (comparing element 0 with itself is harmless)",
 		fmt.Sprintf("the scan starts with j=%d while the best state starts at element 0: some record is never considered", jInit))
 	// loop condition j < len(recs) guards the body
@@ -861,7 +965,7 @@ func c27Scan(c *an.Ctx, fn *ssa.Function, cmpCall *ssa.Call, wrap *c27Wrap) {
 	}
 	inBody := c25RelEdges(fn, isJ, isLenR, c25LT, 0)
 	exitE := c25RelEdges(fn, isJ, isLenR, c25GE, 0)
-	c.Check(len(inBody) > 0 && an.GuardedBy(fn, nil, cmpCall, inBody) && c27ExactBound(fn, jPhi, isLenR), "O2", "R-CMP", name, "loop runs while j < len(recs)", cmpCall.Pos(), "every candidate j < len(recs) is compared",
+	c.Check(len(inBody) > 0 && an.GuardedBy(fn, nil, cmpCall, inBody) && c27ExactBound(fn, jVal, isLenR), "O2", "R-CMP", name, "loop runs while j < len(recs)", cmpCall.Pos(), "every candidate j < len(recs) is compared",
 		"the scan's loop condition is not j < len(recs): the last record(s) are never compared (or the index overruns)")
 
 	// ---- tie-break
@@ -872,7 +976,7 @@ func c27Scan(c *an.Ctx, fn *ssa.Function, cmpCall *ssa.Call, wrap *c27Wrap) {
 		x, y := cmpCall.Call.Args[wrap.va], cmpCall.Call.Args[wrap.vb]
 		jy, yIsJ := elem(y, vals)
 		jx, xIsJ := elem(x, vals)
-		yIsJ, xIsJ = yIsJ && jy == ssa.Value(jPhi), xIsJ && jx == ssa.Value(jPhi)
+		yIsJ, xIsJ = yIsJ && jy == jVal, xIsJ && jx == jVal
 		const cn = "tie-break bytes.Compare(bytes of current best, vals[j])"
 		switch {
 		case cur(x, "bytes") && yIsJ:
@@ -897,7 +1001,7 @@ func c27Scan(c *an.Ctx, fn *ssa.Function, cmpCall *ssa.Call, wrap *c27Wrap) {
 			x, y := cv.Call.Args[0], cv.Call.Args[1]
 			jx, xIsJ := elem(x, vals)
 			jy, yIsJ := elem(y, vals)
-			xIsJ, yIsJ = xIsJ && jx == ssa.Value(jPhi), yIsJ && jy == ssa.Value(jPhi)
+			xIsJ, yIsJ = xIsJ && jx == jVal, yIsJ && jy == jVal
 			mentionsVals := func(v ssa.Value) bool {
 				if _, ok := elem(v, vals); ok {
 					return true
@@ -923,7 +1027,7 @@ func c27Scan(c *an.Ctx, fn *ssa.Function, cmpCall *ssa.Call, wrap *c27Wrap) {
 			default:
 				c.Bad("O2", "R-FLOW", name, "tie-break bytes.Compare(bytes of current best, vals[j])", cv.Pos(), "the tie-break does not compare the bytes of the current best with vals[j]")
 			}
-			c.Check(len(eqE) > 0 && an.GuardedBy(fn, nil, cv, eqE), "O2", "R-DOM", name, "tie-break only when compare == 0", cv.Pos(), "bytes tie-break applied only where compare returned 0", "the byte comparison can override a non-zero compare result: the selected record is not maximal by (hasV2, sequence, expiry)")
+			c.Check(len(eqE) > 0 && an.GuardedBy(fn, nil, cv, eqE), "O2", "R-DOM", name, "tie-break only when comparator == 0", cv.Pos(), "bytes tie-break applied only where compare returned 0", "the byte comparison can override a non-zero compare result: the selected record is not maximal by (hasV2, sequence, expiry)")
 		}
 		if tb == nil {
 			c.Bad("O2", "R-DOM", name, "tie-break bytes.Compare(bytes of current best, vals[j])", cmpCall.Pos(), "no bytes.Compare(vals[best], vals[j]) tie-break in the scan: among records that compare equal the first one wins and the selected bytes depend on the input order")
@@ -946,7 +1050,7 @@ func c27Scan(c *an.Ctx, fn *ssa.Function, cmpCall *ssa.Call, wrap *c27Wrap) {
 			for k, e := range D.Edges {
 				if e != ssa.Value(tb) {
 					pred := D.Block().Preds[k]
-					c.Check(c27EdgeGuarded(fn, pred, D.Block(), neE), "O2", "R-DOM", name, "tie-break whenever compare == 0", D.Pos(), "compare's own result decides only where it is non-zero", "a zero compare result can reach the replacement test without the byte tie-break: equal records keep input order")
+					c.Check(c27EdgeGuarded(fn, pred, D.Block(), neE), "O2", "R-DOM", name, "tie-break whenever comparator == 0", D.Pos(), "compare's own result decides only where it is non-zero", "a zero compare result can reach the replacement test without the byte tie-break: equal records keep input order")
 				}
 			}
 			dVals = []ssa.Value{D}
@@ -1047,24 +1151,44 @@ func c27IsPhi(v ssa.Value) bool { _, ok := v.(*ssa.Phi); return ok }
 
 // c27ExactBound: the only relational test of j against len(recs) is j < len(recs)
 // (not len-1, not <=).
-func c27ExactBound(fn *ssa.Function, j *ssa.Phi, isLen func(ssa.Value) bool) bool {
+func c27ExactBound(fn *ssa.Function, j ssa.Value, isLen func(ssa.Value) bool) bool {
 	ok := true
 	an.Instrs(fn, func(in ssa.Instruction) {
 		bo, isB := in.(*ssa.BinOp)
 		if !isB || c25OpMask(bo.Op) == 0 {
 			return
 		}
-		if bo.X == ssa.Value(j) && !isLen(bo.Y) || bo.Y == ssa.Value(j) && !isLen(bo.X) {
+		if bo.X == j && !isLen(bo.Y) || bo.Y == j && !isLen(bo.X) {
 			ok = false // j compared with something else
 		}
-		if bo.X == ssa.Value(j) && isLen(bo.Y) && bo.Op != token.LSS && bo.Op != token.GEQ {
+		if bo.X == j && isLen(bo.Y) && bo.Op != token.LSS && bo.Op != token.GEQ {
 			ok = false
 		}
-		if bo.Y == ssa.Value(j) && isLen(bo.X) && bo.Op != token.GTR && bo.Op != token.LEQ {
+		if bo.Y == j && isLen(bo.X) && bo.Op != token.GTR && bo.Op != token.LEQ {
 			ok = false
 		}
 	})
 	return ok
+}
+
+// c27EdgeKnown: the CFG edge pred->blk is one of edges, or pred itself is reached only over one of them.
+func c27EdgeKnown(fn *ssa.Function, pred, blk *ssa.BasicBlock, edges an.EdgeSet) bool {
+	if len(edges) == 0 {
+		return false
+	}
+	n, in := 0, 0
+	for i, s := range pred.Succs {
+		if s == blk {
+			n++
+			if edges[an.Edge{From: pred, Succ: i}] {
+				in++
+			}
+		}
+	}
+	if n > 0 && in == n {
+		return true
+	}
+	return an.GuardedBy(fn, nil, pred.Instrs[len(pred.Instrs)-1], edges)
 }
 
 // c27EdgeGuarded: the CFG edge pred->blk is crossed only where one of edges was crossed.
